@@ -180,6 +180,27 @@ fn locals_add_locals_equal_run() {
     std::mem::forget(locals);
 }
 
+/// C14: the same with a concrete batch ([i32, i32] continuing an i32 group of symbolic count, then [f64, f64]
+/// starting a new group): almost concrete, so that it stays decidable whatever iterator machinery a
+/// re-implementation of add_locals uses (a chunk_by-based variant exhausted 24 GB on the symbolic harnesses).
+// @harness props=C14 tier=quick timeout=900
+#[kani::proof]
+#[kani::stub(alloc::fmt::format, crate::kh::no_format)]
+#[kani::unwind(6)]
+fn locals_add_locals_concrete_runs() {
+    let c: u32 = kani::any();
+    kani::assume(c >= 1 && c <= 1000);
+    let mut locals = vec![(c, DataType::I32)];
+    let mut num_locals = c;
+    add_locals(&[DataType::I32, DataType::I32], 2, &mut num_locals, &mut locals);
+    assert!(num_locals == c + 2 && total(&locals) == c + 2, "C14: a batch that continues the last group declared a different number of locals than it was given");
+    add_locals(&[DataType::F64, DataType::F64], 2, &mut num_locals, &mut locals);
+    assert!(num_locals == c + 4 && total(&locals) == c + 4, "C14: a batch that starts a new group declared a different number of locals than it was given");
+    assert!(type_at(&locals, c + 1) == Some(DataType::I32) && type_at(&locals, c + 2) == Some(DataType::F64) && type_at(&locals, c + 3) == Some(DataType::F64), "C14: a batch local does not have the requested type at its index");
+    kani::cover!(c == 1000, "large existing group");
+    std::mem::forget(locals);
+}
+
 fn two_params() -> [DataType; 2] {
     [any_dt(), any_dt()]
 }
